@@ -348,7 +348,7 @@ func siteSrc(k int, id string) string {
 		return "func pt" + id + "(x, y) {\nmodule pm" + id + " {\nfunc gx() { return x }\nfunc gy() { return y }\n}\nreturn pm" + id + "\n}\nfunc tr" + id + "(n) {\nif n == 0 { return pt" + id + "(1, 2) }\nl" + id + ", r" + id + " = tr" + id + "(n - 1), tr" + id + "(n - 1)\nreturn l" + id + "\n}\nh(" + id + ")\npo" + id + " = tr" + id + "(2)\npt" + id + "(3, 4).gy()"
 	// the zero element of a slice of modules used as the first element of a TYPE path
 	case 136:
-		return "module my" + id + " { make(type T, 1) }\nmake(type EY" + id + ", my" + id + ")\nay" + id + " = make([]EY" + id + ", 1)\nxy" + id + " = ay" + id + "[0]\ntry { ty" + id + " = make(xy" + id + ".T) } catch { }\ntry { uy" + id + " = make(xy" + id + ".q.T) } catch { }\ntry { vy" + id + " = make([]xy" + id + ".T) } catch { }\nh(" + id + ")\nmake(xy" + id + ".T)"
+		return "module my" + id + " { make(type T, 1) }\nmake(type EY" + id + ", my" + id + ")\nay" + id + " = make([]EY" + id + ", 1)\nxy" + id + " = ay" + id + "[0]\ntry { ty" + id + " = make(xy" + id + ".T) } catch { }\ntry { uy" + id + " = make(xy" + id + ".q.T) } catch { }\ntry { vy" + id + " = make([]xy" + id + ".T) } catch { }\nmodule mw" + id + " { inner = 0 }\ntry { mw" + id + ".inner = xy" + id + " } catch { }\ntry { wy" + id + " = make(mw" + id + ".inner.T) } catch { }\ntry { zy" + id + " = make(mw" + id + ".inner.q.T) } catch { }\nh(" + id + ")\nmake(xy" + id + ".T)"
 	// a variable whose address is taken (and which is read) by goroutines while the scope that holds it deletes and
 	// defines it again: scopes are safe to share, whatever taking an address does to a binding
 	case 137:
